@@ -31,6 +31,10 @@ pub fn warm_up() {
 }
 
 fn main() {
+    // sqlparser guards its recursion with `stacker`, which only knows the OS thread's stack bounds:
+    // on a coroutine stack it would mmap a fresh 2 MiB segment for every parse. Growth is switched
+    // off; coroutine stacks are sized generously instead (sqlparser's own depth limit still applies).
+    recursive::set_minimum_stack_size(0);
     let args: Vec<String> = std::env::args().collect();
     let cmd = args.get(1).map(|s| s.as_str()).unwrap_or("help");
     match cmd {
